@@ -1,6 +1,7 @@
 import warnings
 import string
 import copy
+import itertools
 import numpy as np
 from dimarray.compat.pycompat import zip
 from dimarray.tools import is_DimArray, is_array1d_equiv, format_doc, isscalar
@@ -434,9 +435,11 @@ class MultiAxis(Axis):
         if len(self.axes) == 1:
             return self.axes[0].values
 
-        aval = _flatten(*[ax.values for ax in self.axes])
-        val = np.empty(aval.shape[0], dtype=object)
-        val[:] = list(zip(*aval.T.tolist())) # pass a list of tuples
+        # list of tuples built from the member labels themselves: going through a 2-D numpy
+        # array would coerce labels of different kinds to a common type (e.g. 10 -> '10')
+        tuples = list(itertools.product(*[ax.values.tolist() for ax in self.axes]))
+        val = np.empty(len(tuples), dtype=object)
+        val[:] = tuples
         return val 
 
     @property
